@@ -17,6 +17,12 @@ let model op c args =
   | "erk" -> hex_of_bytes (encode_region_key c (a 0))
   | "drk" -> (match decode_region_key c (a 0) with KOk k -> "ok " ^ hex_of_bytes k | KOutOfBound -> "oob" | KDecodeErr -> "decerr")
   | "err" -> let (s, e) = encode_region_range c (a 0) (a 1) in hex_of_bytes s ^ " " ^ hex_of_bytes e
+  | "dbk" ->
+      let l = if List.nth args 0 = "" then [] else List.map bytes_of_hex (String.split_on_char ',' (List.nth args 0)) in
+      (match decode_bucket_keys c l with
+       | Some out -> "ok " ^ String.concat "," (List.map hex_of_bytes out)
+       | None -> "decerr")
+  | "pki" -> (match parse_keyspace_id (a 0) with Some id -> "ok " ^ hex_of_n id | None -> "err")
   | _ -> "unknown-op"
 
 let () =
